@@ -1242,6 +1242,21 @@ def _shift_blocks(term, boff):
     return t
 
 
+def simplify(o):
+    """normalise an origin expression: `Variant{x} as Variant.0` -> x (a value built as a variant and taken apart again),
+    `(a, b).1` -> b; works on the frozen (tuple) form used in decision rows as well"""
+    if not isinstance(o, (tuple, list)) or not o:
+        return o
+    if isinstance(o, list):
+        return [simplify(x) for x in o]
+    o = tuple(simplify(x) if isinstance(x, (tuple, list)) else x for x in o)
+    if o[0] == "downcast" and isinstance(o[1], tuple) and o[1] and o[1][0] == "agg" and o[1][1][0] == "adt" and o[1][1][2] == o[2]:
+        return o[1]
+    if o[0] == "field" and isinstance(o[1], tuple) and o[1] and o[1][0] == "agg" and o[1][1][0] in ("adt", "tuple") and isinstance(o[2], int) and o[2] < len(o[1][2]):
+        return o[1][2][o[2]]
+    return o
+
+
 def inline_calls(body, want, depth=2):
     """new Body in which every call whose resolved callee satisfies want(def path) and has a (non-coroutine) body in the
     fact base is replaced by the callee's blocks.  Used so that extracting part of a function into a private helper does
